@@ -118,7 +118,7 @@ GExit(i) == /\ Alive(i)
                \/ ReadsAll(Beh(i)) /\ ~GotAll(i) /\ pipes[i].closed /\ pipes[i].inb = 0   \* EOF before the whole request
             /\ gs' = [gs EXCEPT ![i].pc = "exited",
                                 ![i].status = CASE Beh(i) \in {"exit1", "exit255"} -> "nonzero"
-                                                [] Beh(i) \in {"sigkill", "sigsegv"} -> "signal"
+                                                [] Beh(i) \in {"sigkill", "sigsegv", "replykill", "replyabrt"} -> "signal"
                                                 [] ReadsAll(Beh(i)) /\ ~GotAll(i) -> "nonzero"
                                                 [] OTHER -> "0",
                                 ![i].errout = Beh(i) = "stderr0"]
